@@ -480,6 +480,38 @@ def line_predicate_differential(ck, tier):
         if (o.strip() == "1") != want:
             ck.disagree("iosxrP (Lean line predicate) vs the IOS-XR class pattern in CPython re", {"line": ln.decode("latin1")}, f"model={o.strip()} re={want}")
     ck.extra["line_predicate_accepting_lines_iosxr"] = n_true
+    # and for Arista EOS (`eosP`, ScrapliProps/C01PlatformEOS.lean): host class with parentheses and blanks, mode class {0,63}
+    ce = re.compile(C.EOSDriver(host="h").comms_prompt_pattern.encode(), re.M | re.I)
+    alpha_e = b"abzAZ09_.-@/:+>#()configCONFIG \t\r\x0b\x0c!"
+    base_e = [b"leaf1>", b"leaf1> ", b"leaf1#", b"leaf1# ", b"leaf1(config)#", b"leaf1 (s1)(config-if-Et1)# ", b"leaf1(CONFIG-s-abc)#", b"l(confi)#", b"l(config" + b"m" * 63 + b")#",
+              b"l(config" + b"m" * 64 + b")#", b"a" * 63 + b">", b"a" * 64 + b">", b"a" * 54 + b"(config)#", b"a" * 55 + b"(config)#", b"#", b"> ", b"l#  ", b"l>\t", b"l#\x0c", b"l(x)#", b"l (x) #",
+              b"l(config+x)#", b"l(config(x))#", b"l(config)##", b"l# #", b"(config)#", b"l>#", b"l+#", b""]
+    lines_e = list(base_e)
+    for _ in range(1500 if tier == "quick" else 20000):
+        ln = bytearray(rng.choice(base_e))
+        for _ in range(rng.randint(0, 3)):
+            k = rng.random()
+            if k < 0.4 and ln:
+                ln[rng.randrange(len(ln))] = rng.choice(alpha_e)
+            elif k < 0.7:
+                ln.insert(rng.randint(0, len(ln)), rng.choice(alpha_e))
+            elif ln:
+                del ln[rng.randrange(len(ln))]
+        if b"\n" not in ln:
+            lines_e.append(bytes(ln))
+    try:
+        outs = run_model("C01", [f"linep eos {hexs(ln)}" for ln in lines_e], native=True)
+    except Exception as e:
+        ck.proof_broken("model driver Drv/C01.lean (linep eos)", repr(e))
+        return
+    n_true = 0
+    for ln, o in zip(lines_e, outs):
+        want = ce.search(ln) is not None
+        n_true += want
+        ck.extra["line_predicate_checks_eos"] = ck.extra.get("line_predicate_checks_eos", 0) + 1
+        if (o.strip() == "1") != want:
+            ck.disagree("eosP (Lean line predicate) vs the EOS class pattern in CPython re", {"line": ln.decode("latin1")}, f"model={o.strip()} re={want}")
+    ck.extra["line_predicate_accepting_lines_eos"] = n_true
 
 
 def run(tier, seed):
